@@ -2,6 +2,7 @@ package interp
 
 import (
 	"context"
+	"fmt"
 	"go/ast"
 	"go/token"
 	"io/fs"
@@ -59,6 +60,9 @@ func (interp *Interpreter) compileSrc(src, name string, inc bool) (*Program, err
 	n, err := interp.parse(src, interp.name, inc)
 	if err != nil {
 		return nil, err
+	}
+	if n == nil {
+		return nil, fmt.Errorf("%s: build constraints exclude the source", interp.name)
 	}
 
 	return interp.CompileAST(n)
